@@ -268,6 +268,22 @@ pub fn gen_zone_records(rng: &mut Rng, apex: &RName, class: u16, opts: &ZoneOpts
             rd.extend(std::iter::repeat(b'a' + i as u8).take(200));
             push(&mut recs, rng, owner.clone(), T_TXT, rd);
         }
+        if class == C_IN && rng.chance(1, 12) {
+            // one RRset whose response is larger than 16 KiB (TCP only): exchange names whose
+            // suffix labels first appear beyond offset 16383, where a 14-bit compression
+            // pointer cannot reach
+            let huge = apex.child(b"huge");
+            let n = rng.range(700, 1100);
+            let per_suffix = rng.range(5, 40);
+            for i in 0..n {
+                let target = apex.child(format!("sfx{}", i / per_suffix).as_bytes()).child(format!("t{}", i).as_bytes());
+                if huge.is_valid() && target.is_valid() {
+                    let mut rd = vec![(i >> 8) as u8, i as u8];
+                    rd.extend(target.wire());
+                    recs.push(RRec { owner: huge.clone(), rtype: T_MX, class, ttl: 300, rdata: rd });
+                }
+            }
+        }
     }
     recs
 }
